@@ -751,7 +751,7 @@ def run(ctx):
     ctx.notes['distribution'] = st
     # generator self-check: the proof-relevant families must have been drawn and must have been non-vacuous
     need = [('delaunay', 'family', 'concentric'), ('delaunay', 'family', 'collinear'), ('delaunay', 'tolerance', 'merge'),
-            ('delaunay', 'tolerance', 'sub'), ('constrained', 'holes', 'touching'), ('voronoi', 'env', 'user'), ('voronoi', 'ordered', 'yes'), ('voronoi', 'edges_only', 'yes'), ('voronoi', 'env_shape', 'hstrip'),
+            ('delaunay', 'tolerance', 'sub'), ('constrained', 'holes', 'touching'), ('voronoi', 'env', 'user'), ('voronoi', 'ordered', 'yes'), ('voronoi', 'edges_only', 'yes'), ('voronoi', 'requests', 'PL'), ('voronoi', 'requests', 'LP'), ('delaunay', 'requests', 'ET'), ('delaunay', 'requests', 'TE'), ('voronoi', 'env_shape', 'hstrip'),
             ('voronoi', 'env_shape', 'vstrip'), ('voronoi', 'env_shape', 'offset'), ('voronoi', 'env_multiplier', '100'), ('voronoi', 'env_multiplier', '1000'),
             ('predicate', 'model_answer', '1'), ('predicate', 'model_answer', '0'), ('predicate', 'model_answer', '2')]
     for path in ([] if state['nviol'] > 8 else need):      # a run cut short by failures has not drawn everything
@@ -835,10 +835,44 @@ def lift_predicate_failure(S, vals, it, mt):
 
 
 # ------------------------------------------------------------------------------------------------ Delaunay
+def distinct(l):
+    out = []
+    for x in l:
+        if x not in out: out.append(x)
+    return out
+
+
+def classify_delaunay(case, d):
+    """(verdict, why, codes, kv) of one checker answer"""
+    fam, pts, tol, regime, k, gt = case
+    if d == 'OK':
+        return 'OK', '', None, {}
+    if d.startswith('FAIL'):
+        toks = d.split()
+        codes = [t for t in toks[1:] if t.startswith('c')]
+        kv = dict(t.split('=', 1) for t in toks[1:] if '=' in t)
+        if codes == ['c8'] and int(kv.get('local', 0)) >= 1 and kv.get('local') == kv.get('blind'):
+            return 'KNOWN-K1', '', codes, kv
+        if codes == ['c13']:
+            return 'KNOWN-K2', '', codes, kv
+        if regime == 'sub' and codes == ['c3']:
+            return 'VIOLATION', 'a site farther than the tolerance from every other site is missing from the triangulation', codes, kv
+        return 'VIOLATION', 'Delaunay checker clauses failed: %s (%s)' % (' '.join(codes), CLAUSES_D), codes, kv
+    return 'VIOLATION', 'checker did not return a verdict: ' + d[:200], None, {}
+
+
 def eval_delaunay(S, cases):
-    """cases: (family, sites, tolnum, regime, k, gtype) -> list of dicts with harness output, driver verdict, classification"""
+    """cases: (family, sites, tolnum, regime, k, gtype). gtype 'M' | 'L' | 'C' = one C API request pair (triangles, then edges);
+    gtype '<g>:<seq>' (e.g. 'M:ETE') = ONE DelaunayTriangulationBuilder of the C++ API answering the requests of seq in order
+    (T getTriangles, E getEdges). Every distinct triangle answer is judged together with a distinct edge answer of the same
+    builder by the same certified checker; the case fails if any pair fails."""
     ctx = S['ctx']
-    hl = ['D %d %d %s %s' % (k, tol, gt, sites_txt(pts)) for _, pts, tol, _, k, gt in cases]
+    hl = []
+    for _, pts, tol, _, k, gt in cases:
+        if ':' in gt:
+            g0, sq = gt.split(':'); hl.append('d %d %d %s %s %s' % (k, tol, g0, sq, sites_txt(pts)))
+        else:
+            hl.append('D %d %d %s %s' % (k, tol, gt, sites_txt(pts)))
     hout = run_harness(S, hl, timeout=900)
     dl = []; idx = []
     res = []
@@ -846,38 +880,33 @@ def eval_delaunay(S, cases):
         fam, pts, tol, regime, k, gt = c
         r = dict(case=c, harness_line=hl[ci], impl=ho, verdict=None, why='', driver_line=None, driver='')
         res.append(r)
-        if ho.startswith('CRASH') or ho == 'TIMEOUT' or ho.startswith('NONGRID') or 'ERR' in ho.split(' | ')[0][:4] or ho.startswith('ERR') or '| ERR' in ho or 'BAD' in ho:
+        answers = ho.split(' | ')
+        if ho.startswith('CRASH') or ho == 'TIMEOUT' or ho.startswith('NONGRID') or any(a.startswith('ERR') for a in answers) or 'BAD' in ho or ho == '?':
             r['verdict'] = 'VIOLATION'; r['why'] = 'implementation failed or returned a malformed result: ' + ho[:300]
             continue
-        ntri = ho.split(' | ')[0].count(';')
-        line = delaunay_driver_line(pts, tol, ho, dj=ntri <= 150)
-        if line is None:
+        ts = distinct([a for a in answers if a.startswith('T')]); es = distinct([a for a in answers if a.startswith('E')])
+        if not ts or not es:
             r['verdict'] = 'VIOLATION'; r['why'] = 'unparsable result: ' + ho[:300]; continue
-        r['driver_line'] = line; r['ntri'] = ntri
-        dl.append(line); idx.append(ci)
+        pairs = [(ts[min(i, len(ts) - 1)], es[min(i, len(es) - 1)]) for i in range(max(len(ts), len(es)))]
+        r['ntri'] = max(t.count(';') for t in ts); r['npairs'] = len(pairs)
+        for t, e in pairs:
+            line = delaunay_driver_line(pts, tol, t + ' | ' + e, dj=t.count(';') <= 150)
+            if line is None:
+                r['verdict'] = 'VIOLATION'; r['why'] = 'unparsable result: ' + ho[:300]; break
+            dl.append(line); idx.append(ci)
     dout = par_lines(ctx, [S['drv']], dl, timeout=1800) if dl else []
-    for ci, d in zip(idx, dout):
-        r = res[ci]; r['driver'] = d
-        if d == 'OK':
-            r['verdict'] = 'OK'
-        elif d.startswith('FAIL'):
-            toks = d.split()
-            codes = [t for t in toks[1:] if t.startswith('c')]
-            kv = dict(t.split('=', 1) for t in toks[1:] if '=' in t)
-            r['codes'] = codes; r['kv'] = kv
-            fam, pts, tol, regime, k, gt = r['case']
-            if codes == ['c8'] and int(kv.get('local', 0)) >= 1 and kv.get('local') == kv.get('blind'):
-                r['verdict'] = 'KNOWN-K1'
-            elif codes == ['c13']:
-                r['verdict'] = 'KNOWN-K2'
-            elif regime == 'sub' and codes == ['c3']:
-                r['verdict'] = 'VIOLATION'; r['why'] = 'a site farther than the tolerance from every other site is missing from the triangulation'
-            else:
-                r['verdict'] = 'VIOLATION'
-            if r['verdict'] == 'VIOLATION' and not r['why']:
-                r['why'] = 'Delaunay checker clauses failed: %s (%s)' % (' '.join(codes), CLAUSES_D)
-        else:
-            r['verdict'] = 'VIOLATION'; r['why'] = 'checker did not return a verdict: ' + d[:200]
+    rank = {'OK': 0, 'KNOWN-K2': 1, 'KNOWN-K1': 2, 'VIOLATION': 3}
+    for ci, line, d in zip(idx, dl, dout):
+        r = res[ci]
+        if r['verdict'] == 'VIOLATION' and r['driver_line'] is None:
+            continue
+        v, why, codes, kv = classify_delaunay(r['case'], d)
+        if r['verdict'] is None or rank[v] > rank[r['verdict']]:
+            r['verdict'] = v; r['why'] = why; r['codes'] = codes; r['kv'] = kv; r['driver'] = d; r['driver_line'] = line
+            if v == 'VIOLATION' and r.get('npairs', 1) > 1:
+                r['why'] = 'requests on one builder give different answers and one of them fails: ' + why
+        elif r['driver_line'] is None:
+            r['driver_line'] = line; r['driver'] = d
     return res
 
 
@@ -917,7 +946,7 @@ def report_delaunay(S, r):
     rr = eval_delaunay(S, [(fam, small, tol, regime, k, gt)])[0]
     S['nviol'] += 1
     ctx.violation('delaunay_%d' % S['nviol'],
-                  dict(call='GEOSDelaunayTriangulation_r (triangles, then edges only)', family=fam, scale_exponent=k, tolerance_grid_units=tol, geometry=gt,
+                  dict(call=('DelaunayTriangulationBuilder (one object): requests ' + gt.split(':')[1]) if ':' in gt else 'GEOSDelaunayTriangulation_r (triangles, then edges only)', family=fam, scale_exponent=k, tolerance_grid_units=tol, geometry=gt,
                        sites=pts, shrunk_sites=small, implementation=rr['impl'], checker=rr['driver'], clauses=CLAUSES_D,
                        expected='every clause of DelaunaySpec (Properties_C16.C16_check_delaunay_sound) holds',
                        replay='echo "%s" | %s   # then: echo "<driver_line>" | %s ; or ./check C16 --replay <this file>' % (rr['harness_line'], S['hexe'], S['drv']),
@@ -941,6 +970,8 @@ def do_delaunay(S, rng, n, corpus=False):
         tol, regime = pick_tolerance(rng, pts)
         k = rng.choice([0, 0, 0, 0, 1, -1, 3, -7, 20, -20, 100, -100])
         gt = rng.choice(['M', 'M', 'L', 'C'])
+        if rng.random() < 0.35:      # several requests on ONE DelaunayTriangulationBuilder (C++ API)
+            gt += ':' + rng.choice(DELAUNAY_SEQS)
         cases.append((fam, pts, tol, regime, k, gt))
     res = eval_delaunay(S, cases)
     for r in res:
@@ -948,6 +979,7 @@ def do_delaunay(S, rng, n, corpus=False):
         nontrivial = r.get('ntri', 0) >= 1
         ctx.count(('D', r['harness_line']), nontrivial)
         st.inc('delaunay', 'family', fam); st.inc('delaunay', 'tolerance', regime); st.inc('delaunay', 'verdict', r['verdict'])
+        st.inc('delaunay', 'requests', gt.split(':')[1] if ':' in gt else 'C API')
         nt = r.get('ntri', 0)
         st.inc('delaunay', 'triangles', '0' if nt == 0 else '1-3' if nt <= 3 else '4-20' if nt <= 20 else '21-100' if nt <= 100 else '>100')
         if r['verdict'] == 'KNOWN-K1':
@@ -1167,10 +1199,17 @@ CLAUSES_V = ('c1 number of cells != number of distinct sites, c2 cell ring degen
 
 
 def eval_voronoi(S, cases, ulps=ULPS):
+    """cases: (family, sites, tolnum, k, flags, env, gtype). gtype '<g>' = one GEOSVoronoiDiagram_r request; '<g>:<seq>' (e.g. 'M:PLP') = ONE
+    VoronoiDiagramBuilder of the C++ API answering the requests of seq in order (P getDiagram, L getDiagramEdges), the ordered bit of
+    flags applied to it. Every distinct answer is judged by the cell checker (P) or the edge checker (L)."""
     ctx = S['ctx']
     hl = []
     for fam, pts, tol, k, flags, env, gt in cases:
-        hl.append('V %d %d %d %s %s %s' % (k, tol, flags, ','.join(map(str, env)) if env else '-', gt, sites_txt(pts)))
+        envt = ','.join(map(str, env)) if env else '-'
+        if ':' in gt:
+            g0, sq = gt.split(':'); hl.append('v %d %d %d %s %s %s %s' % (k, tol, flags & 2, envt, g0, sq, sites_txt(pts)))
+        else:
+            hl.append('V %d %d %d %s %s %s' % (k, tol, flags, envt, gt, sites_txt(pts)))
     hout = run_harness(S, hl, timeout=900)
     res = []; dl = []; idx = []
     for ci, (c, ho) in enumerate(zip(cases, hout)):
@@ -1182,30 +1221,39 @@ def eval_voronoi(S, cases, ulps=ULPS):
         if len(set(pts)) == 1 and (max(xs) == min(xs) or max(ys) == min(ys)):
             # one distinct site and no proper envelope from the caller: the clip envelope has no interior, there is nothing to tile
             r['verdict'] = 'DEGENERATE-ENV'; continue
-        if ho.startswith('ERR'):
-            if (flags & 2) and dup and 'Multiple input coordinates' in ho:
-                r['verdict'] = 'DOCUMENTED-NULL'
-            else:
-                r['verdict'] = 'VIOLATION'; r['why'] = 'GEOSVoronoiDiagram_r returned NULL: ' + ho[:300]
-            continue
-        if not ho.startswith('L' if flags & 1 else 'P') or 'BAD' in ho or ho.startswith('CRASH') or ho == 'TIMEOUT':
+        if ho.startswith('CRASH') or ho == 'TIMEOUT' or ho == '?' or 'BAD' in ho:
             r['verdict'] = 'VIOLATION'; r['why'] = 'implementation failed or returned a malformed result: ' + ho[:300]; continue
-        cells = [x.split() for x in ho[1:].split(';') if x.split()]
-        r['ncells'] = len(cells)
-        if flags & 1:
-            line = 'W %d %s S %s G %s' % (ulps, ' '.join(map(str, env)) if env else '-', sites_txt(pts), ' ; '.join(' '.join(c2) for c2 in cells))
-        else:
-            line = 'V %d %d %s S %s G %s' % (ulps, 1 if flags & 2 else 0, ' '.join(map(str, env)) if env else '-', sites_txt(pts), ' ; '.join(' '.join(c2) for c2 in cells))
-        r['driver_line'] = line; dl.append(line); idx.append(ci)
+        answers = distinct(ho.split(' | '))
+        envd = ' '.join(map(str, env)) if env else '-'
+        for a in answers:
+            if a.startswith('ERR'):
+                if (flags & 2) and dup and 'Multiple input coordinates' in a:
+                    if r['verdict'] is None: r['verdict'] = 'DOCUMENTED-NULL'
+                else:
+                    r['verdict'] = 'VIOLATION'; r['why'] = 'Voronoi request failed: ' + a[:300]
+                continue
+            if a[:1] not in ('P', 'L'):
+                r['verdict'] = 'VIOLATION'; r['why'] = 'malformed result: ' + a[:300]; continue
+            cells = [x.split() for x in a[1:].split(';') if x.split()]
+            r['ncells'] = max(r.get('ncells', 0), len(cells))
+            if a[0] == 'L':
+                line = 'W %d %s S %s G %s' % (ulps, envd, sites_txt(pts), ' ; '.join(' '.join(c2) for c2 in cells))
+            else:
+                line = 'V %d %d %s S %s G %s' % (ulps, 1 if flags & 2 else 0, envd, sites_txt(pts), ' ; '.join(' '.join(c2) for c2 in cells))
+            dl.append(line); idx.append(ci)
     dout = par_lines(ctx, [S['drv']], dl, timeout=1800) if dl else []
-    for ci, d in zip(idx, dout):
-        r = res[ci]; r['driver'] = d
-        if d == 'OK': r['verdict'] = 'OK'
+    for ci, line, d in zip(idx, dl, dout):
+        r = res[ci]
+        if r['verdict'] == 'VIOLATION':
+            continue
+        if d == 'OK':
+            if r['verdict'] in (None, 'DOCUMENTED-NULL'): r['verdict'] = 'OK'
+            if r['driver_line'] is None: r['driver_line'] = line; r['driver'] = d
         elif d.startswith('FAIL'):
-            r['verdict'] = 'VIOLATION'; r['codes'] = d.split()[1:]
+            r['verdict'] = 'VIOLATION'; r['codes'] = d.split()[1:]; r['driver_line'] = line; r['driver'] = d
             r['why'] = 'Voronoi checker clauses failed: %s (%s)' % (' '.join(r['codes']), CLAUSES_V)
         else:
-            r['verdict'] = 'VIOLATION'; r['why'] = 'checker did not return a verdict: ' + d[:200]
+            r['verdict'] = 'VIOLATION'; r['why'] = 'checker did not return a verdict: ' + d[:200]; r['driver_line'] = line; r['driver'] = d
     return res
 
 
@@ -1254,7 +1302,7 @@ def report_voronoi(S, r):
             return 'KNOWN-K3'
     S['nviol'] += 1
     ctx.violation('voronoi_%d' % S['nviol'],
-                  dict(call='GEOSVoronoiDiagram_r', family=fam, scale_exponent=k, tolerance=tol, flags=flags, env=env, geometry=gt, sites=pts, shrunk_sites=cur,
+                  dict(call=('GEOSVoronoiDiagram_r / VoronoiDiagramBuilder (one object): requests ' + gt.split(':')[1]) if ':' in gt else 'GEOSVoronoiDiagram_r', family=fam, scale_exponent=k, tolerance=tol, flags=flags, env=env, geometry=gt, sites=pts, shrunk_sites=cur,
                        implementation=rr['impl'][:4000], checker=rr['driver'], clauses=CLAUSES_V, accepted_vertex_displacement_ulps=ULPS,
                        band_quadruples_in_shrunk_sites=nb,
                        expected='every clause of VoronoiSpec (Properties_C16.C16_check_voronoi_sound) holds',
@@ -1262,6 +1310,8 @@ def report_voronoi(S, r):
     return 'VIOLATION'
 
 
+DELAUNAY_SEQS = ['ET', 'TE', 'ETE', 'TET', 'ETET', 'EET', 'TTE', 'TEET']
+VORONOI_SEQS = ['PL', 'LP', 'PP', 'LL', 'PLP', 'LPL']
 ENV_MULTS = [1, 1, 2, 3, 5, 10, 20, 40, 100, 300, 1000]
 ENV_SHAPES = ['centred', 'offset', 'hstrip', 'vstrip', 'corner', 'inside', 'overlap', 'disjoint']
 
@@ -1313,6 +1363,8 @@ def do_voronoi(S, rng, n):
             if g is not None:
                 pts, env, shape, mult = g
         gt = rng.choice(['M', 'M', 'L', 'C'])
+        if rng.random() < 0.3:       # several requests on ONE VoronoiDiagramBuilder (C++ API)
+            gt += ':' + rng.choice(VORONOI_SEQS)
         cases.append((fam, pts, 0, k, flags, env, gt)); info[len(cases) - 1] = (shape, mult)
     res = eval_voronoi(S, cases)
     for ci, r in enumerate(res):
@@ -1320,7 +1372,7 @@ def do_voronoi(S, rng, n):
         st.inc('voronoi', 'family', fam)
         if env: st.inc('voronoi', 'env_shape', info[ci][0]); st.inc('voronoi', 'env_multiplier', str(info[ci][1]))
         st.inc('voronoi', 'env', 'user' if env else 'default'); st.inc('voronoi', 'ordered', 'yes' if flags & 2 else 'no')
-        st.inc('voronoi', 'edges_only', 'yes' if flags & 1 else 'no')
+        st.inc('voronoi', 'edges_only', 'yes' if flags & 1 else 'no'); st.inc('voronoi', 'requests', gt.split(':')[1] if ':' in gt else 'C API')
         ctx.count(('V', r['harness_line']), r.get('ncells', 0) >= 2)
         if r['verdict'] == 'VIOLATION':
             r['verdict'] = report_voronoi(S, r)
